@@ -3,6 +3,7 @@
 what the client received is judged offline by `vh judge-relay` with the reference codec."""
 import json
 import os
+import socket
 import struct
 import sys
 import threading
@@ -14,9 +15,9 @@ import base  # noqa: E402
 import dnslib  # noqa: E402
 
 CONF = """---
-dns-listeners: ['127.0.0.53:53']
+dns-listeners: ['127.0.0.53:53', '[::1]:53']
 acls:
-  - match-subnets: ['127.0.0.0/8']
+  - match-subnets: ['127.0.0.0/8', '::1/128']
     apply-access: ['dns-recursion']
 dns-routes:
   - domain-suffixes: ['']
@@ -81,10 +82,14 @@ def main():
         def ask(c, repeat=False, t_first=None, transport=None):
             q = bytes.fromhex(c["query_hex"])
             transport = transport or c["transport"]
+            # every fourth case comes from a real IPv6 client (the limits are the same whatever the address family)
+            v6 = c["case"] % 4 == 3
+            target = ("::1", 53) if v6 else ("127.0.0.53", 53)
+            fam = socket.AF_INET6 if v6 else socket.AF_INET
             if transport == "tcp":
-                r, err = dnslib.tcp_query(("127.0.0.53", 53), q, timeout=20.0)
+                r, err = dnslib.tcp_query(target, q, timeout=20.0, family=fam)
             else:
-                rs = dnslib.udp_query(("127.0.0.53", 53), q, timeout=20.0)
+                rs = dnslib.udp_query(target, q, timeout=20.0, family=fam)
                 r, err = (rs[0][0], None) if rs else (None, "no datagram within 20 s")
             with elock:
                 events.append({"case": c["case"], "transport": transport, "response_hex": r.hex() if r is not None else None,
